@@ -80,10 +80,10 @@ def run(ctx):
         # result can depend on Go's map iteration order (the model's ghost flag os=1) and runs that exhaust the
         # tick budget are not compared here (bin/tie_m60.py compares those too: all sampled orders, state at the budget).
         tie60, n60, os60, bud60 = [], 0, 0, 0
-        step60 = 6 if ctx.tier == 'quick' else 1
+        step60 = 6 if ctx.tier == 'quick' else 3
         sel = [k for k in range(0, len(allp), step60) if spec[k][0] == 'ok']
         for v6, par in [(v6, par) for v6 in ('6.0', '6.1', '6.2', '6.3', '7.0', '7.1', '8.0') for par in (1, 2, 3, 4)]:
-            cap6 = 40000 if ctx.tier == 'quick' else 10 ** 9
+            cap6 = 40000 if ctx.tier == 'quick' else 150000
             impl6, il6, raw6 = S.run_impl(ctx, [(allp[k], v6, par, min(cap6, S.budget_for(spec[k][1]))) for k in sel], 'c12-i%sx%d' % (v6, par))
             cmpk, mlines = [], []
             for j, k in enumerate(sel):
